@@ -238,7 +238,9 @@ theorem routeLoc_infos (fi : Nat) (f : FileD) (st : InfoState) (l : Loc) :
     (routeLoc fi f st l).infos = st.infos ∨
     (∃ r, fileChildAt fi f l.path = some r ∧ r.path ≠ [] ∧ (routeLoc fi f st l).infos = (r, l.tag) :: st.infos) := by
   unfold routeLoc
-  simp only
+  by_cases h0 : l.path = []
+  · left; simp [h0]
+  simp only [h0, if_false]
   split
   · left; split <;> (try split) <;> (try split) <;> rfl
   · cases hc : fileChildAt fi f l.path with
@@ -326,6 +328,8 @@ theorem C08_attached (fi : Nat) (f : FileD) (d : Decl) (hd : d ∈ declFile fi f
         exfalso
         have hne := decl_path_ne_nil fi f d hd hk
         unfold routeLoc at h0
+        have hl0 : l.path ≠ [] := by rw [hp]; exact hne
+        simp only [hl0, if_false] at h0
         have hlen : ¬ (l.path.length = 1 ∧ l.path ≠ [12] ∧ l.path ≠ [2]) := by
           intro ⟨h1, _⟩
           match hpl : l.path, h1 with
@@ -408,12 +412,15 @@ end Pgs.AST
 /-! ### the syntax and package statements -/
 namespace Pgs.AST
 
-def isSyntaxLoc (l : Loc) : Bool := l.path == [12] || l.path == []
+def isSyntaxLoc (l : Loc) : Bool := l.path == [12]
 def isPackageLoc (l : Loc) : Bool := l.path == [2]
 
 theorem routeLoc_package (fi : Nat) (f : FileD) (st : InfoState) (l : Loc) :
     (routeLoc fi f st l).packageInfo = if isPackageLoc l then some l.tag else st.packageInfo := by
   unfold routeLoc isPackageLoc
+  by_cases h0 : l.path = []
+  · simp [h0]
+  simp only [h0, if_false]
   by_cases h2 : l.path = [2]
   · simp [h2, fileChildAt]
   · have hb : (l.path == [2]) = false := by simpa using h2
@@ -433,9 +440,9 @@ theorem routeLoc_syntax (fi : Nat) (f : FileD) (st : InfoState) (l : Loc) :
   by_cases h12 : l.path = [12]
   · simp [h12, fileChildAt]
   · by_cases h0 : l.path = []
-    · simp [h0, fileChildAt]
-    · have hb : (l.path == [12] || l.path == []) = false := by simp [h12, h0]
-      simp only [hb, Bool.false_eq_true, if_false]
+    · simp [h0]
+    · have hb : (l.path == [12]) = false := by simp [h12]
+      simp only [h0, hb, Bool.false_eq_true, if_false]
       by_cases h1 : l.path.length = 1
       · by_cases h2 : l.path = [2]
         · simp [h2, fileChildAt]
@@ -477,8 +484,8 @@ theorem C08_package_info (fi : Nat) (f : FileD) :
   cases f.locs.reverse.find? isPackageLoc <;> rfl
 
 /-- **C08 (syntax statement)**: the information reported for the syntax statement is that of the
-    last location whose path is `[12]` or the whole-file path `[]` (which `file.addSourceCodeInfo`
-    also stores there — hence the domain note: the whole-file location precedes the syntax one). -/
+    last location whose path is `[12]`, and of no other (since fix F12 the whole-file location `[]`
+    is attached to nothing; before, `file.addSourceCodeInfo` stored it in the syntax slot). -/
 theorem C08_syntax_info (fi : Nat) (f : FileD) :
     (f.locs.foldl (routeLoc fi f) ⟨none, none, []⟩).syntaxInfo =
       (f.locs.reverse.find? isSyntaxLoc).map (·.tag) := by
